@@ -20,7 +20,7 @@ static expression_t parse_update(const std::string& upd, bool* ok)
     static std::vector<std::unique_ptr<Document>> keep;
     keep.emplace_back(new Document());
     Document& doc = *keep.back();
-    std::string m = "int a; int b; int c; int r; bool p; bool q; double d;\nprocess P() { state s0, s1; init s0; trans s0 -> s1 { assign " + upd + "; }; }\nsystem P;\n";
+    std::string m = "int a; int b; int c; int r; bool p; bool q; double d; int arr[4]; typedef int[0,3] idx_t;\nprocess P() { state s0, s1; init s0; trans s0 -> s1 { assign " + upd + "; }; }\nsystem P;\n";
     *ok = true;
     try { parse_XTA(m.c_str(), &doc, true); } catch (...) { *ok = false; return expression_t(); }
     for (auto& t : doc.get_templates())
@@ -68,6 +68,12 @@ int main()
     note("assignment-right-nested.roundtrip", roundtrip("r = a = b", &pr) && roundtrip("r = (a += b)", &pr));
     note("kf.assignment-as-left-operand-of-assignment", roundtrip("(r = a) = b", &pr));
     note("kf.inline-if-as-left-operand-of-assignment", roundtrip("(p ? a : b) = c", &pr));
+    // quantifiers: the binder's type must be printed in the syntax the parser reads
+    for (const char* qe : {"p = forall (i : int[0,3]) arr[i] > 0", "p = exists (i : int[0,3]) arr[i] > 0 && q", "r = sum (i : int[0,3]) arr[i]", "r = (sum (i : idx_t) arr[i]) + 1", "p = (forall (i : idx_t) arr[i] > 0) && q"}) {
+        bool ok = roundtrip(qe, &pr);
+        if (!ok) std::cerr << "quantifier round trip fails: " << qe << "  printed: " << pr << "\n";
+        note("quantifiers.print-parse-roundtrip", ok);
+    }
     // floating-point constants: every bit survives, and the text is a floating-point literal again
     for (const char* lit : {"0.1234567891", "2.0", "1e-7", "1e300", "123456789.125", "0.1", "3.0e10", "4503599627370497.5"}) {
         bool ok = roundtrip(std::string("d = ") + lit, &pr);
